@@ -782,6 +782,29 @@ static int addRequest(KSI_AsyncClient *c, KSI_AsyncHandle *handle, void *req,
 	handle->len = len;
 	handle->sentCount = 0;
 
+	/* A multi-payload request gets a separate conf request handle. It is created before the request is
+	 * queued and cached: nothing may fail after that. */
+	if (hasRequest && hasConfig) {
+		KSI_Config *reqConf = NULL;
+		KSI_Config *confRef = NULL;
+
+		res = req_new(c->ctx, &tmpReq);
+		if (res != KSI_OK) goto cleanup;
+
+		res = req_getConfig(req, &reqConf);
+		if (res != KSI_OK) goto cleanup;
+
+		res = req_setConfig(tmpReq, (confRef = KSI_Config_ref(reqConf)));
+		if (res != KSI_OK) {
+			KSI_Config_free(confRef);
+			goto cleanup;
+		}
+
+		res = asyncHandle_new(c->ctx, tmpReq, &confHandle);
+		if (res != KSI_OK) goto cleanup;
+		tmpReq = NULL;
+	}
+
 	/* Add request to the impl output queue. The query might fail if the queue is full. */
 	res = c->addRequest(c->clientImpl, (hndlRef = KSI_AsyncHandle_ref(handle)));
 	if (res != KSI_OK) {
@@ -799,26 +822,6 @@ static int addRequest(KSI_AsyncClient *c, KSI_AsyncHandle *handle, void *req,
 	if (hasConfig) {
 		/* Check if this is a multy-payload request. */
 		if (hasRequest) {
-			KSI_Config *reqConf = NULL;
-			KSI_Config *confRef = NULL;
-
-			/* Create a separate conf request handle. */
-			res = req_new(c->ctx, &tmpReq);
-			if (res != KSI_OK) goto cleanup;
-
-			res = req_getConfig(req, &reqConf);
-			if (res != KSI_OK) goto cleanup;
-
-			res = req_setConfig(tmpReq, (confRef = KSI_Config_ref(reqConf)));
-			if (res != KSI_OK) {
-				KSI_Config_free(confRef);
-				goto cleanup;
-			}
-
-			res = asyncHandle_new(c->ctx, tmpReq, &confHandle);
-			if (res != KSI_OK) goto cleanup;
-			tmpReq = NULL;
-
 			/* Copy the send state from the initial handle. The handle belongs to the request it was split
 			 * from (same id): it is not a request of its own. */
 			confHandle->state = handle->state;
